@@ -20,6 +20,8 @@ pub fn transcript_t(ops: &[Op], rules: &[usize], iters: usize, texts: Option<&[S
     let mut out = String::new();
     let mut eg: EGraph<Main> = EGraph::default();
     let mut tracked: Vec<AppliedId> = Vec::new();
+    #[cfg(feature = "explanations")]
+    let mut exprs: Vec<RecExpr<Main>> = Vec::new();
     let mut nadd = 0;
     for op in ops {
         match op {
@@ -29,6 +31,8 @@ pub fn transcript_t(ops: &[Op], rules: &[usize], iters: usize, texts: Option<&[S
                     None => to_recexpr::<Main>(t),
                 };
                 nadd += 1;
+                #[cfg(feature = "explanations")]
+                exprs.push(re.clone());
                 let a = eg.add_expr(re);
                 out.push_str(&format!("add -> {:?}\n", a));
                 tracked.push(a);
@@ -76,6 +80,24 @@ pub fn transcript_t(ops: &[Op], rules: &[usize], iters: usize, texts: Option<&[S
         }
     }
     out.push_str(&format!("progress {:?}\n", eg.verif_measure()));
+    // explanations build: the printed proofs of the equalities between tracked handles are part of the transcript
+    #[cfg(feature = "explanations")]
+    {
+        let mut shown = 0;
+        'outer: for i in 0..tracked.len() {
+            for j in i + 1..tracked.len() {
+                if shown >= 6 {
+                    break 'outer;
+                }
+                if eg.eq(&tracked[i], &tracked[j]) {
+                    if let Ok(txt) = guarded(|| eg.explain_equivalence(exprs[i].clone(), exprs[j].clone()).to_string(&eg)) {
+                        out.push_str(&format!("explain {i} {j}\n{txt}\n"));
+                        shown += 1;
+                    }
+                }
+            }
+        }
+    }
     out
 }
 
